@@ -68,3 +68,63 @@ Example C19_skip_nonvacuous :
   /\ SchemaDiff sqlite_driver (skip_of [KDropColumn; KDropIndex]) ex_from ex_to
      = Some [ModifyTable [116]%N [AddColumn [99]%N]].
 Proof. split; [repeat constructor | split; vm_compute; reflexivity]. Qed.
+
+(** ** C19_exclude_exact.  "A resource matching an --exclude pattern is absent from every
+    inspection result ..., while every resource that matches no pattern is still present."
+
+    Full statement: whenever [ExcludeRealm r patterns] returns a realm, it is
+    [strict_realm G r] (ExcludeSpec.v): a schema / table / column / index / foreign key / check
+    is kept iff no chain of G = split patterns selects its path (with the [type=...]
+    selectors), and what is kept is unchanged and in order.  The faithful model refutes it,
+    twice (both reproduced on the real code by the tie, known findings
+    C19-exclude-cascade-dependent and C19-exclude-bad-pattern-swallowed):
+    1. pattern "s.t.c" also removes index i of column c, although "i" matches no pattern;
+    2. the malformed pattern "s.t.[" returns NO error and a table without columns and
+       indexes (excludeT overwrites the error of an earlier filter). *)
+From Atlas Require Import Excl.ExcludeSpec Excl.ExcludeProofs.
+
+Definition exr_realm : realm :=
+  [mkSchema [115]%N [mkTable [116]%N false false [ex_col 99] None
+     [mkIndex [105]%N false [mkPart 0 false (Some [99]%N) None] None None None] [] []]].
+
+Theorem C19_exclude_exact_refuted :
+  (exists r pats G r', split pats = EOk G /\ ExcludeRealm (true, true) r pats = EOk r' /\ r' <> strict_realm G r)
+  /\ (exists r pats G r', split pats = EOk G /\ Match (glob_of [91]%N) [99]%N = Bad
+        /\ ExcludeRealm (true, true) r pats = EOk r' /\ strict_realm G r = r /\ r' <> r).
+Proof.
+  split.
+  - exists exr_realm, [[115;46;116;46;99]%N], [[[115]%N; [116]%N; [99]%N]].
+    eexists. split; [vm_compute; reflexivity|]. split; [vm_compute; reflexivity|].
+    vm_compute. intros H. discriminate H.
+  - exists exr_realm, [[115;46;116;46;91]%N], [[[115]%N; [116]%N; [91]%N]].
+    eexists. split; [vm_compute; reflexivity|]. split; [vm_compute; reflexivity|].
+    split; [vm_compute; reflexivity|]. split; [vm_compute; reflexivity|].
+    vm_compute. intros H. discriminate H.
+Qed.
+Print Assumptions C19_exclude_exact_refuted.
+
+(** The exact characterisation that does hold, for every realm, every pattern list and both
+    kinds of states (columns with / without back-pointers to their indexes and foreign keys):
+    if no glob of the chains can fail ([chains_ok]: every chain has 1..3 elements and
+    [filepath.Match] answers every element for every name -- C19_match_spec: every well-formed
+    glob), ExcludeRealm returns exactly [ref_realm link G r]: the strict reference plus the
+    cascade of excludeT (an index / foreign key also goes when the element that admits its type
+    selects, as a column, a still-present column it is built on).  Without back-pointers the
+    cascade is empty and the full statement holds. *)
+Theorem C19_exclude_exact_except :
+  forall (link : bool * bool) (r : realm) (patterns : list bytes) (G : list (list bytes)),
+    split patterns = EOk G -> chains_ok G ->
+    ExcludeRealm link r patterns = EOk (ref_realm link G r)
+    /\ ref_realm (false, false) G r = strict_realm G r.
+Proof.
+  intros link r patterns G Hs HG. split.
+  - exact (ExcludeRealm_ref link r patterns G Hs HG).
+  - exact (ref_realm_nolink G r).
+Qed.
+Print Assumptions C19_exclude_exact_except.
+
+Example C19_exclude_nonvacuous :
+  ExcludeRealm (true, true) exr_realm [[115;46;116;46;99;91;116;121;112;101;61;99;111;108;117;109;110;93]%N]
+  = EOk [mkSchema [115]%N [mkTable [116]%N false false [] None
+           [mkIndex [105]%N false [mkPart 0 false (Some [99]%N) None] None None None] [] []]].
+Proof. vm_compute. reflexivity. Qed.
